@@ -107,12 +107,23 @@ func (g *Gen) genForeign() *FImg {
 	f.Descs = make([]FDesc, n)
 	cur := f.DataOff
 	havePrim := false
+	// sometimes the first three objects placed are partitions marked primary, primary and system (an
+	// image two writers each gave "their" primary partition): promoting the third is refused
+	twoPrims := len(order) >= 3 && r.Chance(1, 5)
+	if twoPrims {
+		g.count("foreign:two-primary-partitions-and-a-system-partition")
+	}
+	placed := 0
 	for _, i := range order {
 		gap := int64(pick(r, []int{0, 0, 0, 1, 5, 64, 512}))
 		off := cur + gap
 		ds := g.size()
 		data := ds.Bytes()
 		dt := pick(r, dataTypes)
+		placed++
+		if twoPrims && placed <= 3 {
+			dt = 0x4004
+		}
 		d := FDesc{Used: true, DT: dt, ID: ids[i], GID: 0xf0000000 | pick(r, []uint32{0, 1, 1, 2, 3}), Off: off, Size: int64(len(data)),
 			SizePad: gap + int64(len(data)), CT: int64(r.Intn(2000000000)), MT: int64(r.Intn(2000000000)), Name: g.name(), Data: &ds}
 		if len(d.Name) > 128 {
@@ -131,8 +142,15 @@ func (g *Gen) genForeign() *FImg {
 		switch dt {
 		case 0x4004:
 			pt := int32(1 + r.Intn(4))
-			if pt == 2 && havePrim {
+			if twoPrims && placed <= 3 {
+				pt = []int32{2, 2, 1}[placed-1]
+			} else if pt == 2 && havePrim {
 				pt = 1
+				if r.Chance(1, 4) {
+					// another writer's image with two partitions marked primary
+					pt = 2
+					g.count("foreign:two-primary-partitions")
+				}
 			}
 			ac := pick(r, archCodes)
 			if pt != 2 && r.Chance(1, 5) {
